@@ -290,6 +290,7 @@ type Opts struct {
 	AnonUnionContainers bool // []Union / map[string]Union fields (gounions refuses them)
 	EnumUnexported bool // enums with unexported members
 	UnexportedMembers bool // union members whose Go name is unexported
+	NoMemberFirst     bool // no struct using union members before their unions
 	DashTags bool // some fields tagged json:"-"
 	NoTwinPkg bool // no second imported package named like the first
 	TagOptions bool // json tag options omitempty / string (C02 only: the generated types cannot express them)
@@ -299,7 +300,7 @@ type Opts struct {
 
 func Full() Opts {
 	return Opts{Pointers: false, Unions: true, Generics: true, StdLib: true, SubPkg: true, Embedded: true, Recursive: true,
-		Aliases: true, FixedArrays: true, MapKeys: true, Tags: true, NStructs: 4, MaxFields: 5, EnumUnexported: true}
+		Aliases: true, FixedArrays: true, MapKeys: true, Tags: true, NStructs: 4, MaxFields: 5, EnumUnexported: true, UnexportedMembers: true}
 }
 
 type gen struct {
@@ -357,7 +358,12 @@ func Random(id int, rng *rand.Rand, o Opts) *Prog {
 	sv := Basic("string")
 	add(Decl{K: "named", Name: "Color", Under: &sv, Consts: []Const{{Name: "Red", Val: `"red"`}, {Name: "Blue", Val: `"blue"`, Comment: "the blue"}, {Name: "green", Val: `"green"`}}})
 	iv := Basic("int")
-	add(Decl{K: "named", Name: "Score", Under: &iv, Consts: []Const{{Name: "ScoreLow", Val: "-1"}, {Name: "ScoreHigh", Val: "10"}, {Name: "ScoreMid", Val: "5"}}})
+	scs := []Const{{Name: "ScoreLow", Val: "-1"}, {Name: "ScoreHigh", Val: "10"}, {Name: "ScoreMid", Val: "5"}}
+	if o.EnumUnexported && rng.Intn(2) == 0 {
+		// an unexported member spelled with a leading underscore (the zero value of the type)
+		scs = append([]Const{{Name: "_ScoreNone", Val: "0"}}, scs...)
+	}
+	add(Decl{K: "named", Name: "Score", Under: &iv, Consts: scs})
 	g.leafs = append(g.leafs, Ref("", "Kind"), Ref("", "Color"), Ref("", "Score"))
 	// dates
 	tt := Time()
@@ -380,6 +386,10 @@ func Random(id int, rng *rand.Rand, o Opts) *Prog {
 	if o.Generics {
 		add(Decl{K: "generic", Name: "Opt", File: "other", TParam: "~int64", Fields: []Field{{Name: "Valid", Type: Basic("bool")}, {Name: "Id", Type: TE{K: "ref", Pkg: "", Name: "T"}}}})
 		g.leafs = append(g.leafs, Inst("Opt", Ref("", "IdItem")))
+		// a phantom type parameter: two instantiations with identical underlying types
+		add(Decl{K: "generic", Name: "Tagged", File: "other", TParam: "any", Fields: []Field{{Name: "ID", Type: Basic("int64")}}})
+		g.leafs = append(g.leafs, Inst("Tagged", Ref("", "IdItem")), Inst("Tagged", Ref("", "Label")))
+		add(Decl{K: "struct", Name: "UsesTagged", Fields: []Field{{Name: "Owner", Type: Inst("Tagged", Ref("", "IdItem"))}, {Name: "Target", Type: Inst("Tagged", Ref("", "Label"))}, {Name: "Others", Type: Slice(Inst("Tagged", Ref("", "Label")))}}})
 	}
 	// unions
 	unionLeafs := []TE{}
@@ -403,6 +413,10 @@ func Random(id int, rng *rand.Rand, o Opts) *Prog {
 		add(Decl{K: "named", Name: "Things", Under: &mt})
 		unionLeafs = []TE{Ref("", "Shape"), Ref("", "Thing"), Ref("", "Shapes"), Ref("", "Things")}
 		g.leafs = append(g.leafs, Ref("", "Circle"), Ref("", "Rect"))
+		if !o.NoMemberFirst {
+			// members used directly BEFORE the unions they belong to, inside one value
+			add(Decl{K: "struct", Name: "MemberFirst", Fields: []Field{{Name: "First", Type: Ref("", "Circle")}, {Name: "Both", Type: Ref("", "Rect")}, {Name: "Then", Type: Ref("", "Shape")}, {Name: "Last", Type: Ref("", "Thing")}}})
+		}
 	}
 	if o.Embedded {
 		add(Decl{K: "struct", Name: "Base", Fields: []Field{{Name: "BaseID", Type: Ref("", "IdItem"), Tag: `json:"base_id"`}, {Name: "Note", Type: Basic("string")}, {Name: "secret", Type: Basic("bool")}}})
@@ -492,7 +506,9 @@ func Random(id int, rng *rand.Rand, o Opts) *Prog {
 						}
 					}
 				case 3:
-					if o.DataIgnore {
+					// (not on a union-typed field: its zero value is the nil interface, which gounions cannot
+					// marshal, so "keeps its zero value" and "survives the round trip" cannot both be asked)
+					if o.DataIgnore && !(t.K == "ref" && t.Pkg == "" && (t.Name == "Shape" || t.Name == "Thing")) {
 						fld.Tag = `gomacro-data:"ignore"`
 					}
 				}
